@@ -5,6 +5,8 @@ sys.path.insert(0, os.path.join(os.path.dirname(os.path.abspath(__file__)), ".."
 from common import *
 
 MANIFEST = """namespace: Wm
+imports:
+  - ../lib
 python:
   outputDir: ../out/py
 json:
@@ -27,10 +29,14 @@ P: !protocol
 """
 
 
-def extra_text(version, valid=True):
+def extra_text(version, valid=True, d="main"):
     if not valid:
         return "Broken%d: !record\n  fields:\n    - this is not a field map\n  oops\n" % version
-    return "Rec%d: !record\n  fields:\n    v%d: int\n    w: string\nE%d: !enum\n  values: [a, b%d]\n" % (version, version, version, version)
+    p = "" if d == "main" else "L"
+    return "%sRec%d: !record\n  fields:\n    v%d: int\n    w: string\n%sE%d: !enum\n  values: [a, b%d]\n" % (p, version, version, p, version, version)
+
+
+LIBBASE = "LibThing: !record\n  fields:\n    y: int\n"
 
 
 def snapshot(root):
@@ -46,9 +52,15 @@ def snapshot(root):
 
 
 class Watcher:
-    def __init__(self, yardl, root, home):
+    def __init__(self, yardl, root, home, initial_valid=True):
         self.root = root
         self.mdir = os.path.join(root, "model")
+        self.ldir = os.path.join(root, "lib")
+        os.makedirs(self.ldir)
+        open(os.path.join(self.ldir, "_package.yml"), "w").write("namespace: Lib\n")
+        open(os.path.join(self.ldir, "base.yml"), "w").write(LIBBASE)
+        open(os.path.join(self.ldir, "lextra.yml"), "w").write(extra_text(0, initial_valid, "imp"))
+        self.broken = set() if initial_valid else {"imp"}
         self.gates = os.path.join(root, "gates")
         self.trace = os.path.join(root, "trace.ndjson")
         os.makedirs(self.mdir)
@@ -112,21 +124,29 @@ class Watcher:
             time.sleep(0.01)
         return False
 
-    def edit(self, kind, valid=True):
+    def file_of(self, d):
+        return os.path.join(self.mdir, "extra.yml") if d == "main" else os.path.join(self.ldir, "lextra.yml")
+
+    def edit(self, kind, valid=True, d="main"):
         self.version += 1
-        p = os.path.join(self.mdir, "extra.yml")
+        p = self.file_of(d)
         if kind == "remove" and not os.path.exists(p):
             kind = "write"                      # nothing to remove: the file comes back instead
-        self.note("HEdit", kind=kind, version=self.version, valid=valid)
+        self.note("HEdit", kind=kind, version=self.version, valid=valid, dir=d)
+        if valid:
+            self.broken.discard(d)
+        else:
+            self.broken.add(d)
         if kind == "remove":
             os.remove(p)
         elif kind == "rename":
-            tmp = os.path.join(self.mdir, ".extra.yml.tmp")
-            open(tmp, "w").write(extra_text(self.version, valid))
+            tmp = os.path.join(os.path.dirname(p), ".extra.yml.tmp")
+            open(tmp, "w").write(extra_text(self.version, valid, d))
             os.rename(tmp, p)
         else:
             with open(p, "w") as f:
-                f.write(extra_text(self.version, valid))
+                f.write(extra_text(self.version, valid, d))
+        self.note("HEditDone", version=self.version)
 
     def drain(self, timeout=20):
         """let everything run: open the gate for good and wait until regenerations have ended and nothing new starts"""
@@ -165,27 +185,33 @@ class Watcher:
 
 def observed_marker(outroot):
     """which version's generation is on disk: the number in the Rec<n> class of the generated Python, 'none' when extra.yml contributed nothing"""
-    try:
-        txt = open(os.path.join(outroot, "py", "wm", "types.py")).read()
-    except OSError:
-        return "missing"
-    m = re.search(r"class Rec(\d+)", txt)
-    return int(m.group(1)) if m else "none"
+    out = []
+    for path, pat in ((os.path.join(outroot, "py", "wm", "types.py"), r"class Rec(\d+)"), (os.path.join(outroot, "py", "wm", "lib", "types.py"), r"class LRec(\d+)")):
+        try:
+            m = re.search(pat, open(path).read())
+            out.append(int(m.group(1)) if m else "none")
+        except OSError:
+            out.append("missing")
+    return out
 
 
-def abstract_trace(events, base):
+def abstract_trace(events, base, initial_valid=True):
     """hook events + harness events of one run -> lines for TraceWatch.tla.  base: global version number of this run's initial contents.
     Returns (lines, marker_of_global_version, next_free_version)"""
-    lines = [{"e": "reset", "version": base}]
-    markers = {base: 0}
+    lines = [{"e": "reset", "version": base, "valid": bool(initial_valid)}]
+    state = [0, 0 if initial_valid else "invalid"]           # what the main file and the imported package's file contribute
+    markers = {base: list(state) if initial_valid else "invalid"}
     cur = base
     in_regen, validated, wrote = False, False, 0
     for e in events:
         ev = e["event"]
         if ev == "HEdit":
             cur += 1
-            markers[cur] = "none" if e["kind"] == "remove" else (e["version"] if e["valid"] else "invalid")
-            lines.append({"e": "edit", "version": cur, "valid": bool(e["valid"])})
+            state[0 if e.get("dir", "main") == "main" else 1] = "none" if e["kind"] == "remove" else (e["version"] if e["valid"] else "invalid")
+            markers[cur] = "invalid" if "invalid" in state else list(state)
+            lines.append({"e": "editbegin", "version": cur, "valid": "invalid" not in state, "dir": e.get("dir", "main")})
+        elif ev == "HEditDone":
+            lines.append({"e": "editend"})
         elif ev == "FsEvent":
             lines.append({"e": "fsevent"})
         elif ev == "RegenStart":
@@ -210,19 +236,19 @@ def abstract_trace(events, base):
     return lines, markers, cur + 1
 
 
-def run_schedule(yardl, home, root, hist):
+def run_schedule(yardl, home, root, hist, initial_valid=True):
     """schedule-guided run: edits are performed when the schedule says so, a regeneration that has reached the gate is held until the schedule
     releases it; what the implementation does in between (debounce, locking) is its own business.  Returns a result dict."""
-    w = Watcher(yardl, root, home)
-    res = {"hist": hist, "alive": True, "problem": None}
+    w = Watcher(yardl, root, home, initial_valid=initial_valid)
+    res = {"hist": hist, "alive": True, "problem": None, "initial_valid": initial_valid}
     try:
-        if not w.wait(lambda: len(w.arrivals()) >= 1, 20):
+        if not w.wait(lambda: len(w.arrivals()) >= 1 or w.counts()[1] >= 1, 20):
             res["problem"] = "the watcher never reached its first generation"
             return res
         for tok in hist:
             if tok["a"] == "edit":
                 before_arr, (s0, e0) = len(w.arrivals()), w.counts()
-                w.edit(tok["kind"], tok.get("valid", True))
+                w.edit(tok["kind"], tok.get("valid", True), tok.get("dir", "main"))
                 # give the debounce timer and the read phase time: a new arrival at the gate, or a regeneration that ended without reaching it
                 w.wait(lambda: len(w.arrivals()) > before_arr or w.counts()[1] > e0, 0.5)
             elif tok["a"] == "release":
@@ -237,7 +263,8 @@ def run_schedule(yardl, home, root, hist):
         if not drained and res["alive"]:
             res["problem"] = "the watcher did not drain within 20 s"
         # one more valid save after everything: the watcher must still be serving
-        res["final_dir"] = {f: open(os.path.join(w.mdir, f)).read() for f in sorted(os.listdir(w.mdir))}
+        res["final_dir"] = {os.path.join(dn, f): open(os.path.join(dd, f)).read() for dn, dd in (("model", w.mdir), ("lib", w.ldir))
+                            for f in sorted(os.listdir(dd)) if not f.startswith(".")}
         res["out"] = snapshot(os.path.join(root, "out"))
         res["trace"] = w.events()
         res["marker"] = observed_marker(os.path.join(root, "out"))
@@ -259,53 +286,79 @@ def main():
     if r.violated_names():
         c.note("MODEL: the serialized design itself violates %s" % r.violated_names())
         raise Inconclusive("Watch.tla (serialized) does not satisfy its own properties: %s" % r.violated_names())
-    for cfg in ("MCWatchAsFound.cfg", "MCWatchTryLock.cfg"):
+    for cfg in ("MCWatchAsFound.cfg", "MCWatchTryLock.cfg", "MCWatchAsFoundDirs.cfg", "MCWatchAlwaysDirs.cfg"):
         r2 = tlc("Watch", cfg=cfg, spec_dirs=[wdir], timeout=900)
         c.add_tlc(r2)
         if "Converges" not in r2.violated_names():
             raise Inconclusive("vacuity guard: %s is expected to violate Converges" % cfg)
     # ---- schedules
     scheds = []
-    for cfg in ("MCWatchSchedules.cfg", "MCWatchSchedulesInvalid.cfg"):
+    for cfg in ("MCWatchSchedules.cfg", "MCWatchSchedulesInvalid.cfg", "MCWatchSchedulesDirs.cfg"):
         r3 = tlc("Watch", cfg=cfg, spec_dirs=[wdir], timeout=1800, workers=1)
         c.add_tlc(r3)
         for cs in tlc_cases(r3.out):
-            scheds.append(cs["hist"])
+            scheds.append((cs["hist"], cfg != "MCWatchSchedulesInvalid.cfg"))
     uniq = {}
-    for h in scheds:
-        uniq[json.dumps(h, sort_keys=True)] = h
+    for h, iv in scheds:
+        uniq[json.dumps([h, iv], sort_keys=True)] = (h, iv)
     scheds = [uniq[k] for k in sorted(uniq)]
     c.cov["schedules_from_tlc"] = len(scheds)
-    c.rng.shuffle(scheds)
+
+    def consistent(h, initial_valid):
+        """the specification's validity flag of every version must be what the files really are: a valid edit in one directory while the
+        other directory's file is broken would be a valid version in the schedule and an invalid package on disk"""
+        broken = set() if initial_valid else {"imp"}
+        for t in h:
+            if t["a"] != "edit":
+                continue
+            d = t.get("dir", "main")
+            if t.get("valid", True):
+                broken.discard(d)
+                if broken:
+                    return False
+            else:
+                broken.add(d)
+        return True
 
     def interesting(h):
         # a release that comes after a later edit, or out of order
         return any(t["a"] == "release" and t["rank"] > 0 for t in h) or \
             any(h[i]["a"] == "edit" and any(t["a"] == "release" for t in h[i + 1:]) for i in range(len(h)))
-    first = [h for h in scheds if interesting(h)]
-    rest = [h for h in scheds if not interesting(h)]
-    budget = 400 if thorough else 48
-    chosen = first[:budget * 3 // 4] + rest[:budget // 4]
+    scheds = [(h, iv) for h, iv in scheds if consistent(h, iv)]
+    c.cov["schedules_consistent"] = len(scheds)
+    c.rng.shuffle(scheds)
+
+    def uses_imp(h):
+        return any(t["a"] == "edit" and t.get("dir") == "imp" for t in h)
+    budget = 400 if thorough else 60
+    groups = [[x for x in scheds if not x[1]],                                             # start from an invalid imported package
+              [x for x in scheds if x[1] and uses_imp(x[0]) and interesting(x[0])],         # edits in the imported package's directory
+              [x for x in scheds if x[1] and not uses_imp(x[0]) and interesting(x[0])],
+              [x for x in scheds if x[1] and not interesting(x[0])]]
+    chosen = []
+    for g, share in zip(groups, (0.2, 0.3, 0.35, 0.15)):
+        chosen += g[:max(4, int(budget * share))]
     # every kind of edit also as the LAST edit of some schedules (a save that is not picked up only shows when nothing follows it)
     for kind in ("write", "remove", "rename"):
-        extra = [h for h in scheds if h not in chosen and [t for t in h if t["a"] == "edit"][-1]["kind"] == kind]
+        extra = [x for x in scheds if x not in chosen and [t for t in x[0] if t["a"] == "edit"][-1]["kind"] == kind]
         chosen += extra[:6 if not thorough else 30]
 
     def expected_for(final_dir, idx):
         d = os.path.join(sc, "oneshot%d" % idx)
         os.makedirs(os.path.join(d, "model"))
+        os.makedirs(os.path.join(d, "lib"))
         for f, txt in final_dir.items():
-            open(os.path.join(d, "model", f), "w").write(txt)
+            open(os.path.join(d, f), "w").write(txt)
         rc, o, e = run([yardl, "generate"], cwd=os.path.join(d, "model"), env=yardl_env(home), timeout=120)
         snap = snapshot(os.path.join(d, "out")) if rc == 0 else None
         shutil.rmtree(d, ignore_errors=True)
         return rc, snap
 
     def work(arg):
-        i, h = arg
+        i, (h, initial_valid) = arg
         root = os.path.join(sc, "w%d" % i)
         os.makedirs(root)
-        res = run_schedule(yardl, home, root, h)
+        res = run_schedule(yardl, home, root, h, initial_valid)
         if res.get("final_dir") is not None:
             res["oneshot_rc"], res["expected"] = expected_for(res["final_dir"], i)
         shutil.rmtree(root, ignore_errors=True)
@@ -314,7 +367,8 @@ def main():
     infra = 0
     for res in results:
         h = res["hist"]
-        shape = "".join("E" if t["a"] == "edit" and t.get("valid", True) else "X" if t["a"] == "edit" else "R%d" % t["rank"] for t in h)
+        shape = ("" if res.get("initial_valid", True) else "x:") + "".join(
+            (("E" if t.get("valid", True) else "X") + ("i" if t.get("dir") == "imp" else "")) if t["a"] == "edit" else "R%d" % t["rank"] for t in h)
         kinds = "+".join(sorted(set(t["kind"] for t in h if t["a"] == "edit")))
         c.count(("schedule", shape, kinds), nontrivial=True)
         c.cov["traces_validated_against_impl"] += 1
@@ -358,8 +412,10 @@ def main():
     for res in results:
         if res["problem"] or not res.get("alive") or "trace" not in res:
             continue
-        ls, markers, base = abstract_trace(res["trace"], base)
+        ls, markers, base = abstract_trace(res["trace"], base, res.get("initial_valid", True))
         cands = [v for v, mk in markers.items() if mk == res["marker"]]
+        if res.get("oneshot_rc") != 0:
+            cands = sorted(markers)          # the final package is invalid: nothing is required of the files
         if not cands:
             c.note("trace abstraction: observed output marker %r matches no version of the run (%r)" % (res["marker"], markers))
         ls.append({"e": "final", "candidates": cands, "observed": str(res["marker"])})
@@ -373,7 +429,7 @@ def main():
             for ln in lines:
                 # every line carries every field (TLC's records are total)
                 f.write(json.dumps({"e": ln["e"], "version": ln.get("version", 0), "valid": ln.get("valid", True), "ok": ln.get("ok", True),
-                                    "candidates": ln.get("candidates", []), "observed": ln.get("observed", "")}) + "\n")
+                                    "dir": ln.get("dir", "main"), "candidates": ln.get("candidates", []), "observed": ln.get("observed", "")}) + "\n")
         rt = tlc("TraceWatch", cfg="TraceWatch.cfg", spec_dirs=[wdir], workdir=twd, workers=1, timeout=1800, env={"VERIF_TRACE": tf})
         c.add_tlc(rt)
         c.cov["trace_lines_validated"] = len(lines)
@@ -390,8 +446,8 @@ def main():
               c.cov["traces_with_overlapping_regenerations"])
     if infra > len(results) // 4:
         raise Inconclusive("too many schedules could not be run (%d)" % infra)
-    for h in chosen[:3]:
-        c.sample({"schedule": h})
+    for h, iv in chosen[:3]:
+        c.sample({"schedule": h, "initial_package_valid": iv})
     c.assumptions += ["schedule-guided replay: the harness performs the edits and holds / releases regenerations at the before_write gate as the TLC schedule "
                       "says; debounce and locking are left to the implementation, so a schedule that the implementation makes impossible degrades to the "
                       "nearest possible one",
